@@ -194,6 +194,17 @@ def recanon(t):
     return r
 
 
+def atom_name(a, depth=0, limit=6):
+    if a == 0:
+        return '1'
+    d = _atom_of[a] if a < len(_atom_of) else None
+    if d is None:
+        return 'atom%d' % a
+    if d[0] == 'pw':
+        return '%s#%d(bit position inputs..)' % (d[1][3:], d[2])
+    return '%s.bit%d' % (T.show(d[0], depth + 1, limit), d[1])
+
+
 class NotPure(Exception):
     pass
 
